@@ -212,6 +212,23 @@ pub fn run(cfg: &Cfg) -> Report {
     "histories of add/remove/replace/clear/deploy over a six-model alphabet (same namespace/different name, different namespace/same name, identical, disjoint, one failing to build): every history up to length L exhaustively over a reduced operation alphabet, plus random histories up to length 200 over the full alphabet. Non-trivial: the history contains at least one successful add followed by a remove, replace, failed add or deploy; distinct by rendered history.",
   );
   let alpha = Alphabet::find();
+  // "built successfully" has a floor that does not depend on the builder: a decision whose logic is not a FEEL
+  // expression (`1 +`) cannot be evaluated, so a model containing it cannot have built successfully
+  {
+    let xml = model_xml("nsx", "nx", BAD_BODIES[0]);
+    let r = std::panic::catch_unwind(|| dmntk_model::parse(&xml).ok().map(|d| ModelEvaluator::new(&d).is_ok()));
+    rep.case("alphabet: the model with invalid decision logic does not build", true);
+    if let Ok(Some(true)) = r {
+      rep.disagree(
+        Kind::ImplVsSpec,
+        "evaluable",
+        "a model with a decision whose logic is not a FEEL expression builds successfully (and becomes evaluable on deploy)",
+        &xml,
+        "ModelEvaluator::new = Ok",
+        "Err",
+      );
+    }
+  }
   if alpha.bad_body.is_none() {
     rep.notes.push("no alphabet model fails to build on this tree: the failing-build member of the alphabet is replaced by a building one".into());
   }
